@@ -143,6 +143,10 @@ claim("C31", "Proof that at most three fetch attempts are made whatever is confi
       "net/http follows redirects through CheckRedirect (assumed); the validator's verdict is the ghost predicate validatorAccepted.",
       ["error texts never contain the query string (value flow through fmt.Errorf)", "the validator call inside the redirect policy (a call through a captured function value; its refusal path is structural)", "retry delay timing"])
 
+claim("C01", "Proof that both ends of each wire-helper pair use the same keys and fields: WriteRequest stamps method and request version (and the protocol version exactly when one is given) on one batch carrying the parameters' own schema/columns/rows; ReadRequest reads its fields off the first batch's metadata under those keys and answers each refusal with the typed RpcError the protocol names (ProtocolError / VersionError), success only for the supported version; ReadUnaryResult reports a result only for the first batch with rows whose 'result' column is a non-empty binary column (index-safe: the column index comes from the schema's own field indices, row 0 exists), everything else — reader failure, missing or non-binary column, exception batch, log-only stream — is not a result; WriteUnaryResult refuses an envelope that is not one field and otherwise writes one one-row batch with exactly the given bytes; the token / protocol-version finders read the cursor, call and version keys and return the first non-empty value.",
+      "arrow-go's IPC writer and reader being inverse is NOT assumed by any obligation: the round trip itself is exercised by the replay witnesses only.",
+      ["round trip through arrow-go IPC (witnesses only)", "FindStreamTokens' walk over concatenated streams and its termination", "garbled-bytes robustness of the Arrow reader"])
+
 # properties not claimed: reason
 NOT_APPLICABLE = {
     "C11": "relational two-run equivalence between the pipe loop and the HTTP handlers routed through gob, AEAD and Arrow IPC; contracts here are single-run and per function",
